@@ -404,7 +404,9 @@ func genC12(g *Gen) {
 	g.setMode(0)
 	for !g.w.full() {
 		var x d128.Decimal
-		switch g.r.Intn(4) {
+		switch g.r.Intn(5) {
+		case 4: // the all-zero pattern and its neighbours
+			x = rawDec(uint64(g.r.Intn(2))<<63, uint64(g.r.Intn(2)))
 		case 0: // walk the 17-bit combination field
 			comb := uint64(g.r.Intn(1 << 17))
 			hi := uint64(g.r.Intn(2))<<63 | comb<<46
